@@ -12,6 +12,28 @@ import time
 from .sim import HarnessError
 
 NWORKERS = max(1, min(14, (os.cpu_count() or 2) - 2))
+try:
+    ALL_CPUS = sorted(os.sched_getaffinity(0))
+except (AttributeError, OSError):
+    ALL_CPUS = []
+
+
+def pin(index=None):
+    """Pin this process to one CPU.  Threaded worlds pass a baton between OS threads; with all
+    threads on one core the hand-off needs no cross-core wake-up (measured 3-4x faster)."""
+    if not ALL_CPUS:
+        return
+    if index is None:
+        index = os.getpid()
+    try:
+        os.sched_setaffinity(0, {ALL_CPUS[index % len(ALL_CPUS)]})
+    except OSError:
+        pass
+
+
+def _pool_init():
+    ident = multiprocessing.current_process()._identity
+    pin(ident[0] if ident else None)
 
 
 def jsonable(o):
@@ -136,7 +158,7 @@ def pmap(fn, items, rep, workers=None, chunksize=1):
             fn(it, rep)
         return
     ctx = multiprocessing.get_context("fork")
-    with ctx.Pool(min(workers, len(items))) as pool:
+    with ctx.Pool(min(workers, len(items)), initializer=_pool_init) as pool:
         for d in pool.imap_unordered(_worker_entry, [(fn, it) for it in items], chunksize):
             rep.merge(d)
 
